@@ -5,7 +5,7 @@
    aiohomekit/model/characteristics/characteristic.py and Service.build_update
    by the correspondence check harness/c14.py. *)
 From Coq Require Import List NArith ZArith Bool QArith Qabs.
-From AHK Require Import Lib.Res Model.Convert Proofs.ConvertInt Proofs.ConvertQ Proofs.ConvertFrac.
+From AHK Require Import Lib.Res Model.Convert Model.ConvertHist Proofs.ConvertInt Proofs.ConvertQ Proofs.ConvertFrac Proofs.ConvertHist.
 Import ListNotations.
 Local Open Scope Z_scope.
 
@@ -191,6 +191,69 @@ Proof.
   - vm_compute. reflexivity.
 Qed.
 
+(* ---------------------------------------------------------------------- *)
+(* Histories (Model/ConvertHist.v): one Service with long-lived             *)
+(* Characteristic objects; Declare = metadata re-assigned, Report = the     *)
+(* accessory reports a value (set_value), Prepare = Service.build_update    *)
+(* with a multi-entry payload.  [run] returns the outputs of the Prepares.  *)
+(* ---------------------------------------------------------------------- *)
+
+(* After ANY history the prepared payload is what the metadata in force
+   demand ([limits_after] folds the Declare operations only; [spec_update]
+   converts entry by entry with [check_convert]): earlier writes, reported
+   values and replaced metadata leave no trace. *)
+Theorem history_depends_only_on_limits : forall aid s h p,
+  run aid s (h ++ [Prepare p]) = run aid s h ++ [spec_update aid (limits_after (limits_of s) h) p].
+Proof. exact history_lemma. Qed.
+
+(* deleting every Report from a history changes no output *)
+Theorem reports_irrelevant : forall aid s h,
+  run aid s h = run aid s (filter (fun o => negb (is_report o)) h).
+Proof. exact reports_irrelevant_lemma. Qed.
+
+(* a write does not change what later writes give *)
+Theorem prepare_leaves_no_trace : forall aid s h1 p h2,
+  run aid s (h1 ++ Prepare p :: h2) =
+  run aid s h1 ++ spec_update aid (limits_after (limits_of s) h1) p :: run aid (final aid s h1) h2 /\
+  run aid s (h1 ++ h2) = run aid s h1 ++ run aid (final aid s h1) h2.
+Proof. exact prepare_pure_lemma. Qed.
+
+(* a payload is converted entry by entry: results in payload order, each with
+   the aid and the iid of its own characteristic and its own converted value *)
+Theorem payload_entrywise : forall aid l p r, spec_update aid l p = Ok r ->
+  length r = length p /\
+  forall n k e, nth_error p n = Some (k, e) ->
+    exists i a v, lim_lookup k l = Some (i, a) /\ convert_for a e = Ok v /\ nth_error r n = Some (aid, i, v).
+Proof. exact update_ok_lemma. Qed.
+
+(* with every characteristic type present the update yields a list or FormatError,
+   and one unconvertible entry fails the whole update with FormatError *)
+Theorem payload_total : forall aid l p,
+  (forall k e, In (k, e) p -> lim_lookup k l <> None) ->
+  (exists r, spec_update aid l p = Ok r) \/ spec_update aid l p = Err FormatError.
+Proof. exact update_total_lemma. Qed.
+
+Theorem payload_one_bad_entry_rejects : forall aid l p k e i a,
+  (forall k' e', In (k', e') p -> lim_lookup k' l <> None) ->
+  In (k, e) p -> lim_lookup k l = Some (i, a) -> convert_for a e = Err FormatError ->
+  spec_update aid l p = Err FormatError.
+Proof. exact update_reject_lemma. Qed.
+
+(* non-vacuity: the history of seed C14-G (27.26 with 10..38 step 0.5, limits
+   re-declared to 10..25 step 0.1, 27.26 and 22.26 again) with a report in
+   between, and a two-entry payload *)
+Example c14_history_nonvacuous :
+  let mk := fun c e => mkDec false c e in
+  let a1 := mkAttrs FFloat (Some (mk 10%N 0%Z)) (Some (mk 38%N 0%Z)) (Some (mk 5%N (-1)%Z)) in
+  let a2 := mkAttrs FFloat (Some (mk 10%N 0%Z)) (Some (mk 25%N 0%Z)) (Some (mk 1%N (-1)%Z)) in
+  let s := [(0%N, mkChr 2%N a1 None); (1%N, mkChr 3%N (mkAttrs FUint8 None None None) None)] in
+  let v := fun c => ([] : list N, RFin (mk c (-2)%Z)) in
+  run 1%N s [Prepare [(0%N, v 2726%N)]; Report 0%N (RFin (mk 2750%N (-2)%Z)); Declare 0%N a2;
+             Prepare [(0%N, v 2726%N)]; Prepare [(1%N, v 300%N); (0%N, v 2226%N)]]
+  = [Ok [(1%N, 2%N, VDec (mk 275%N (-1)%Z))]; Ok [(1%N, 2%N, VDec (mk 25%N 0%Z))];
+     Ok [(1%N, 3%N, VInt 3%Z); (1%N, 2%N, VDec (mk 223%N (-1)%Z))]].
+Proof. vm_compute. reflexivity. Qed.
+
 Print Assumptions int_exact.
 Print Assumptions int_nearest_grid_point.
 Print Assumptions rhaz_is_nearest.
@@ -208,3 +271,9 @@ Print Assumptions near_is_5e_6.
 Print Assumptions rhaQ_is_nearest.
 Print Assumptions decimal_ops_rounded.
 Print Assumptions int_fractional_six_digits.
+Print Assumptions history_depends_only_on_limits.
+Print Assumptions reports_irrelevant.
+Print Assumptions prepare_leaves_no_trace.
+Print Assumptions payload_entrywise.
+Print Assumptions payload_total.
+Print Assumptions payload_one_bad_entry_rejects.
